@@ -566,6 +566,14 @@ fn observe(s: &verif_hooks::DispatchSnapshot) {
                 }
             }
             eprintln!("snap {} {} moved {:?}: {}", ob.calls, s.phase, s.train_idx_curr.map(|t| t.get()), row.join(" "));
+            // ALTSIM_TRACE_DSP_LINKS=10,11,63: the authority tables of these links at every snapshot
+            if let Ok(ls) = std::env::var("ALTSIM_TRACE_DSP_LINKS") {
+                for l in ls.split(',').filter_map(|x| x.trim().parse::<usize>().ok()) {
+                    if let Some(a) = s.link_disp_auths.get(l) {
+                        eprintln!("    link {l} blocked_by {:?}: {}", s.links_blocked.get(l).and_then(|t| t.map(|x| x.get())), a.iter().map(|d| format!("[T{} ae {:.0} ax {:.0} ce {:.0} cx {:.0} of {:.0} ob {:.0}]", d.train_idx.map(|x| x.get()).unwrap_or(0), d.arrive_entry.value, d.arrive_exit.value, d.clear_entry.value, d.clear_exit.value, d.offset_front.value, d.offset_back.value)).collect::<Vec<_>>().join(" "));
+                    }
+                }
+            }
         }
         // reach: how many trains are simultaneously on the line, and in which directions
         let en_route: Vec<usize> = views.iter().enumerate().skip(1).filter(|(_, v)| !v.is_finished && v.disp_node_idx_front.is_some()).map(|(i, _)| i).collect();
@@ -745,6 +753,7 @@ pub fn execute(case: &Case, ctx: &mut Ctx) {
                         init_time: case.trains[t].depart,
                         sim_days: None,
                         hash_seed: case.hash_seed,
+                        init_offset: None,
                     };
                     let mut c2 = Ctx::default();
                     trn::execute(&sub, &mut c2);
